@@ -39,6 +39,8 @@ SCENARIO (all keys optional except connections; proxy_port is assigned 20000+ind
   concurrent      bool: run all client connections at once (default: one after the other)
   ops_before / ops_after   ops run before the first / after the last connection
   timeout_ms (per response, default 10000), drain_timeout_ms (5000), scenario_timeout_ms (60000)
+  status_task_ms  n: run a REAL gpa::proxy_agent_status::ProxyAgentStatusTask (interval n ms, >= 2) writing
+                  <scratch>/status.<proxy_port>/status.json for the scenario; see RESULT status_json
 CONNECTION  local_port (bind before connect, SO_REUSEADDR; default ephemeral), audit (record inserted
   under the local port BEFORE connecting), requests [req], pipelined (write all, then read),
   ops_before_connect, ops_before_close, timeout_ms
@@ -65,7 +67,11 @@ RESULT
                               get_all_failed_connection_summary / get_all_connection_summary (sorted); entries carry
                               userName, userGroups, processFullPath, processCmdLine (= the claims the agent derived),
                               ip, port, responseStatus, count
-  snapshots                   results of "snapshot" ops
+  status_json                 (status_task_ms only, else None) {"failed": failedAuthenticateSummary, "ok":
+                              proxyConnectionSummary (both sorted like `summary`), "timestamp", "has_failed_field",
+                              "has_ok_field"} parsed from status.json after it was completely rewritten twice
+                              following the last request (so it was computed after it); {"error": ...} on a 5 s timeout
+  snapshots                   results of "snapshot" ops (label, audit_map, summary, status_json -- same two-rewrite wait)
   drained                     True when every upstream connection was accepted and closed before collection
   panics                      panic messages seen in the process during the scenario
   self_pid, helper_pid, proxy_port, stray_upstream
